@@ -1055,3 +1055,237 @@ def override_flows(run, tmp, rng, thorough):
                               dict(argv=argv, conf=conf))
     run.cov["oracle"]["workflow comparisons: " + fl.name] = fl.nchecks
     os.chdir(tmp)
+
+
+# --------------------------------------------------------------------------
+# boundary values: numeric settings at exactly 0 (and other edge values) through the workflows
+# --------------------------------------------------------------------------
+
+# numeric settings without a zero-valued workflow case, and why
+NO_ZERO_CASE = {
+    "fpitch": "0 is not a legal frequency pitch (empty / infinite frequency grid)",
+    "gv_delta_q": "0 is not a legal finite-difference step",
+    "symmetry_tolerance": "0 is not a legal tolerance (no symmetry operation is found)",
+    "tstep": "0 is not a legal temperature step",
+    "cutoff_radius": "radius 0 has no specified meaning (the library call zeroes every force constant)",
+    "sscha_iterations": "pypolymlp is not installed",
+    "displacement_distance_max": "only meaningful as the upper end of a random-distance range",
+    "random_seed": "covered by the workflow `-d --rd 2 --random-seed 0` of every crystal",
+    "random_displacements": "0 means no random displacements",
+    "fmax": "covered together with fmin (0 as the lower end)",
+    "band_points": "covered by the edge value 2 (0 and 1 points per segment are not legal)",
+}
+
+
+def boundary_flows(run, tmp, flow, tb, rng, thorough):
+    """every numeric setting that reaches a workflow, at exactly 0 (or its smallest legal value), by option and by
+    tag, in both commands, against the library call with the same value"""
+    import phonopy
+    from phonopy import Phonopy
+    from phonopy.file_IO import parse_FORCE_SETS
+    from phonopy.phonon.band_structure import get_band_qpoints
+
+    src = flow.dir
+    dimv = [str(x) for x in flow.dim]
+    fl = Flow(run, "boundary-" + flow.name, flow.dim, tmp)
+    fl.cell = flow.cell
+
+    def lib_obj(variant, **kw):
+        if variant == "load":
+            return phonopy.load("phonopy_params.yaml", fc_calculator="traditional", symmetrize_fc=False, log_level=0, **kw)
+        ph = Phonopy(flow.cell, supercell_matrix=np.diag(flow.dim), log_level=0, **kw)
+        ph.dataset = parse_FORCE_SETS(natom=len(ph.supercell), filename="FORCE_SETS")
+        ph.produce_force_constants(calculate_full_force_constants=False, fc_calculator="traditional")
+        return ph
+
+    def disp_yaml():
+        ds = phonopy.load("phonopy_disp.yaml", produce_fc=False, log_level=0).dataset
+        if "displacements" in ds:
+            return np.asarray(ds["displacements"])
+        return np.array([[x["number"]] + list(x["displacement"]) for x in ds["first_atoms"]], dtype=float)
+
+    def disp_lib(ph):
+        ds = ph.dataset
+        if "displacements" in ds:
+            return np.asarray(ds["displacements"])
+        return np.array([[x["number"]] + list(x["displacement"]) for x in ds["first_atoms"]], dtype=float)
+
+    def tprop_file():
+        return np.array([[x["temperature"], x["free_energy"], x["entropy"], x["heat_capacity"]] for x in _yaml("thermal_properties.yaml")["thermal_properties"]])
+
+    def tprop_lib(ph, **kw):
+        ph.run_mesh([2, 2, 2])
+        ph.run_thermal_properties(**kw)
+        d = ph.get_thermal_properties_dict()
+        return np.c_[d["temperatures"], d["free_energy"], d["entropy"], d["heat_capacity"]]
+
+    def qfreq_file(name="qpoints.yaml"):
+        return np.array([[b["frequency"] for b in p["band"]] for p in _yaml(name)["phonon"]])
+
+    def rd_lib(v, T):
+        ph = lib_obj(v)
+        ph.generate_displacements(number_of_snapshots=2, temperature=T, random_seed=7)
+        return disp_lib(ph)
+
+    def dos_lib(v, **kw):
+        ph = lib_obj(v)
+        ph.run_mesh([2, 2, 2])
+        ph.run_total_dos(**kw)
+        d = ph.get_total_dos_dict()
+        return np.c_[d["frequency_points"], d["total_dos"]]
+
+    def q_lib(v, **kw):
+        ph = lib_obj(v, **kw)
+        ph.run_qpoints([[0.1, 0.2, 0.3]])
+        return ph.get_qpoints_dict()["frequencies"]
+
+    def band_lib(v, n):
+        ph = lib_obj(v)
+        ph.run_band_structure(get_band_qpoints([np.array([[0, 0, 0], [0.5, 0, 0]])], npoints=n))
+        return np.concatenate(ph.get_band_structure_dict()["frequencies"])
+
+    def tdm_lib(v):
+        ph = lib_obj(v)
+        ph.init_mesh([2, 2, 2], with_eigenvectors=True, is_mesh_symmetry=False, use_iter_mesh=True)
+        ph.run_thermal_displacement_matrices(temperatures=[0.0])
+        return np.asarray(ph.get_thermal_displacement_matrices_dict()["thermal_displacement_matrices"])
+
+    def tdm_file():
+        y = _yaml("thermal_displacement_matrices.yaml")
+        return np.array([[a for a in t["displacement_matrices"]] for t in y["thermal_displacement_matrices"]], dtype=float)
+
+    def mesh1_lib(v):
+        ph = lib_obj(v)
+        ph.run_mesh([1, 1, 1])
+        return ph.get_mesh_dict()["frequencies"]
+
+    def moment_lib(v):
+        ph = lib_obj(v)
+        ph.run_mesh([2, 2, 2], with_eigenvectors=True, is_mesh_symmetry=False)
+        ph.run_moment(order=0, is_projection=False)
+        tot = ph.get_moment()
+        ph.run_moment(order=0, is_projection=True)
+        return np.array([tot] + list(ph.get_moment()))
+
+    def moment_out(out):
+        row = [ln for ln in out.split("\n") if ln.strip().startswith("0 |")]
+        return np.array([float(x) for x in row[0].replace("|", " ").split()[1:]]) if row else np.zeros(0)
+
+    def disp_amp_lib(v):
+        ph = Phonopy(flow.cell, supercell_matrix=np.diag(flow.dim), log_level=0)
+        ph.generate_displacements(distance=0.0)
+        return disp_lib(ph)
+
+    def dim1_lib(v):
+        ph = Phonopy(flow.cell, supercell_matrix=np.eye(3, dtype=int), log_level=0)
+        ph.generate_displacements()
+        return disp_lib(ph)
+
+    mesh_t = (["--mesh", "2", "2", "2", "-t"], ["MESH = 2 2 2", "TPROP = .TRUE."])
+    rd = (["--rd", "2", "--random-seed", "7"], ["RANDOM_DISPLACEMENTS = 2", "RANDOM_SEED = 7"])
+    # tag -> (mode argv, mode conf, option, conf line, output -> array, library -> array, tolerance, variants, fresh dir without displacement file)
+    CASES = {
+        "random_displacement_temperature": (rd[0], rd[1], ["--rd-temperature", "0"], "RANDOM_DISPLACEMENT_TEMPERATURE = 0", lambda o: disp_yaml(), lambda v: rd_lib(v, 0), 1e-12, ("phonopy", "load")),
+        "random_displacement_temperature 300": (rd[0], rd[1], ["--rd-temperature", "300"], "RANDOM_DISPLACEMENT_TEMPERATURE = 300", lambda o: disp_yaml(), lambda v: rd_lib(v, 300), 1e-12, ("phonopy", "load")),
+        "tmax": (mesh_t[0], mesh_t[1], ["--tmax", "0"], "TMAX = 0", lambda o: tprop_file(), lambda v: tprop_lib(lib_obj(v), t_min=0, t_max=0, t_step=10), 2e-7, ("phonopy", "load")),
+        "tmin": (mesh_t[0] + ["--tmax", "100", "--tstep", "50"], mesh_t[1] + ["TMAX = 100", "TSTEP = 50"], ["--tmin", "0"], "TMIN = 0", lambda o: tprop_file(),
+                 lambda v: tprop_lib(lib_obj(v), t_min=0, t_max=100, t_step=50), 2e-7, ("phonopy", "load")),
+        "cutoff_frequency": (mesh_t[0] + ["--tmax", "100", "--tstep", "50"], mesh_t[1] + ["TMAX = 100", "TSTEP = 50"], ["--cutoff-freq", "0"], "CUTOFF_FREQUENCY = 0",
+                             lambda o: tprop_file(), lambda v: tprop_lib(lib_obj(v), t_min=0, t_max=100, t_step=50, cutoff_frequency=0.0), 2e-7, ("phonopy", "load")),
+        "sigma": (["--mesh", "2", "2", "2", "--dos"], ["MESH = 2 2 2", "DOS = .TRUE."], ["--sigma", "0"], "SIGMA = 0", lambda o: _dat("total_dos.dat"), lambda v: dos_lib(v, sigma=0.0), 2e-9, ("phonopy", "load")),
+        "fmin": (["--mesh", "2", "2", "2", "--dos"], ["MESH = 2 2 2", "DOS = .TRUE."], ["--fmin", "0"], "FMIN = 0", lambda o: _dat("total_dos.dat"), lambda v: dos_lib(v, freq_min=0.0), 2e-9, ("phonopy", "load")),
+        "frequency_conversion_factor": (["--qpoints", "0.1", "0.2", "0.3"], ["QPOINTS = 0.1 0.2 0.3"], ["--factor", "0"], "FREQUENCY_CONVERSION_FACTOR = 0", lambda o: qfreq_file(),
+                                        lambda v: q_lib(v, factor=0.0), 2e-10, ("phonopy", "load")),
+        "fc_decimals": (["--qpoints", "0.1", "0.2", "0.3"], ["QPOINTS = 0.1 0.2 0.3"], ["--fc-decimals", "0"], "FC_DECIMALS = 0", lambda o: qfreq_file(),
+                        lambda v: q_lib(v, force_constants_decimals=0), 2e-10, ("phonopy",)),
+        "dm_decimals": (["--qpoints", "0.1", "0.2", "0.3"], ["QPOINTS = 0.1 0.2 0.3"], ["--dm-decimals", "0"], "DM_DECIMALS = 0", lambda o: qfreq_file(),
+                        lambda v: q_lib(v, dynamical_matrix_decimals=0), 2e-10, ("phonopy",)),
+        "band_points": (["--band", "0", "0", "0", "1/2", "0", "0"], ["BAND = 0 0 0 1/2 0 0"], ["--band-points", "2"], "BAND_POINTS = 2", lambda o: qfreq_file("band.yaml"), lambda v: band_lib(v, 2), 2e-10, ("phonopy", "load")),
+        "tdispmat_cif": (["--mesh", "2", "2", "2"], ["MESH = 2 2 2"], ["--tdm-cif", "0"], "TDISPMAT_CIF = 0", lambda o: tdm_file(), tdm_lib, 2e-7, ("phonopy", "load")),
+        "mesh_numbers": ([], [], ["--mesh", "1", "1", "1"], "MESH = 1 1 1", lambda o: qfreq_file("mesh.yaml"), mesh1_lib, 2e-10, ("phonopy", "load")),
+        "moment_order": (["--mesh", "2", "2", "2", "--moment"], ["MESH = 2 2 2", "MOMENT = .TRUE."], ["--moment-order", "0"], "MOMENT_ORDER = 0", moment_out, moment_lib, 2e-5, ("phonopy", "load")),
+        "displacement_distance": (["-d"], ["CREATE_DISPLACEMENTS = .TRUE."], ["--amplitude", "0"], "DISPLACEMENT_DISTANCE = 0", lambda o: disp_yaml(), disp_amp_lib, 1e-14, ("phonopy",)),
+        "dim": (["-d"], ["CREATE_DISPLACEMENTS = .TRUE."], ["--dim", "1", "1", "1"], "DIM = 1 1 1", lambda o: disp_yaml(), dim1_lib, 1e-14, ("phonopy",)),
+    }
+    numeric = sorted({r["tag"] for r in tb["opt_rules"] if r["numeric"]} | {"sigma", "mesh_numbers", "dim", "random_displacements"}) if tb else sorted(k.split()[0] for k in CASES)
+    report = {}
+    for tag in numeric:
+        if tag in CASES:
+            report[tag] = "0-valued workflow case"
+        elif tag in NO_ZERO_CASE:
+            report[tag] = "no case: " + NO_ZERO_CASE[tag]
+        else:
+            report[tag] = "NOT COVERED"
+            run.broke("coverage", "numeric setting %s has neither a zero-valued workflow case nor a recorded reason (harness/props/c18_flow.py CASES / NO_ZERO_CASE)" % tag)
+    run.cov["oracle"]["numeric settings at 0 through the workflows"] = report
+
+    names = list(CASES)
+    if not thorough:  # quick: the displacement temperature always, half of the others
+        rest = [n for n in names if not n.startswith("random_displacement_temperature")]
+        rng.shuffle(rest)
+        names = ["random_displacement_temperature"] + rest[: len(rest) // 2 + 1]
+    for name in names:
+        mode_argv, mode_conf, opt, tagline, extract, lib, tol, variants = CASES[name]
+        for variant in variants:
+            want, lib_err = None, None
+            os.chdir(src)
+            try:
+                with contextlib.redirect_stdout(io.StringIO()):
+                    want = np.asarray(lib(variant), dtype=float)
+            except Exception as e:  # the library rejects the value: the command must not silently do something else
+                lib_err = "%s: %s" % (type(e).__name__, e)
+            routes = ("opt", "tag") if thorough or name.startswith("random_displacement_temperature") else (rng.choice(["opt", "tag"]),)
+            for route in routes:
+                d = os.path.join(fl.dir, "case")
+                shutil.rmtree(d, ignore_errors=True)
+                os.makedirs(d)
+                for f in ("POSCAR", "FORCE_SETS", "phonopy_params.yaml"):
+                    shutil.copy(os.path.join(src, f), os.path.join(d, f))
+                os.chdir(d)
+                uses_dim_opt = "--dim" in opt
+                if variant == "phonopy":
+                    if route == "opt":
+                        argv = ([] if uses_dim_opt else ["--dim"] + dimv) + ["-c", "POSCAR"] + mode_argv + opt
+                        conf = None
+                    else:
+                        conf = ([] if tagline.startswith("DIM") else ["DIM = " + " ".join(dimv)]) + mode_conf + [tagline]
+                        argv = ["z.conf", "-c", "POSCAR"]
+                else:
+                    head = ["phonopy_params.yaml", "--fc-calc", "traditional", "--no-fc-symmetry"]
+                    if route == "opt":
+                        argv, conf = head + mode_argv + opt, None
+                    else:
+                        conf = mode_conf + [tagline]
+                        argv = head + ["--config", "z.conf"]
+                if conf is not None:
+                    U.write_conf("z.conf", conf)
+                code, out, exc = run_main(variant, argv)
+                run.case(("boundary", name, variant, route), nontrivial=True)
+                run.count("boundary-value workflows", section="oracle")
+                run.count("command: %s %s" % (variant, " ".join(a for a in argv if a.startswith("-"))))
+                case = dict(crystal=flow.name, setting=name, variant=variant, argv=argv, conf=conf)
+                cmdtxt = "%s %s%s" % ("phonopy-load" if variant == "load" else "phonopy", " ".join(argv), "" if conf is None else " with conf %s" % conf)
+                if lib_err is not None:
+                    if exc is None and code == 0:
+                        run.count("boundary value rejected by the library, accepted by the command", section="oracle")
+                    continue
+                if exc is not None or code != 0:
+                    run.violation("phonopy_script.main", "boundary-value-command-fails",
+                                  "`%s` %s although the library call with the same value succeeds" % (
+                                      cmdtxt, "raises %s: %s" % (type(exc).__name__, exc) if exc is not None else "exits with %r: %s" % (code, out[-200:])), case)
+                    continue
+                try:
+                    got = np.asarray(extract(out), dtype=float)
+                except Exception as e:
+                    run.violation("phonopy_script.main", "output-missing", "`%s`: expected output cannot be read (%s: %s)" % (cmdtxt, type(e).__name__, e), case)
+                    continue
+                ok = got.shape == want.shape
+                if ok and got.size:
+                    noise = (np.abs(got) < 1e-4) & (np.abs(want) < 1e-4) if "freq" in name or name in ("mesh_numbers", "band_points", "fc_decimals", "dm_decimals") else np.zeros(got.shape, bool)
+                    both_nan = np.isnan(got) & np.isnan(want)
+                    ok = bool(np.all((np.abs(got - want) <= tol) | noise | both_nan))
+                if not ok:
+                    run.violation("phonopy_script.main", "boundary-value-differs-from-library",
+                                  "`%s`: the output differs from the library call with %s (%s)" % (
+                                      cmdtxt, tagline, "shape %s vs %s" % (got.shape, want.shape) if got.shape != want.shape else "max difference %.3g" % float(np.nanmax(np.abs(got - want)))), case)
+    os.chdir(tmp)
